@@ -26,6 +26,11 @@ def eval_program(arg) -> dict:
     prog, case, _rng = progrun.make_program(PROP, seed, stream, scratch, stream % 4 == 2)
     # alternate the origin deterministically so that both are covered in every run
     prog.enc['origin'] = 'create' if stream % 2 == 0 else 'import'
+    if stream % 4 == 1:
+        # dispatcher traffic must be visible for the import origin in every run
+        prog.enc['requires'] = {'sts': 'NONE', 'mts': 'ALL'}
+        if not prog.enc.get('multiclient'):
+            prog.enc['provides'] = {'sts': 'NONE', 'mts': 'ALL'}
     case['cfg'] = prog.enc
     out = {'violations': [], 'counts': {}}
     flavor = 'asan'
